@@ -321,6 +321,11 @@ class Engine:
         m = re.match(r"^(-?\d+)_(\w+)$", txt)
         if m:
             return z3.IntVal(int(m.group(1)))
+        m = re.match(r"^(-?[\d.]+(?:E[+-]?\d+)?)f64$", txt)
+        if m:
+            from fractions import Fraction
+            fr = Fraction(float(m.group(1)))
+            return z3.RealVal("%d/%d" % (fr.numerator, fr.denominator))
         m = re.match(r"^(\w+)::(MIN|MAX)$", txt)
         if m and m.group(1) in INT:
             lo, hi = irange(m.group(1))
@@ -495,6 +500,10 @@ class Engine:
                 return wrap(v, ty)
             if kind == "Transmute":
                 return v
+            if kind == "IntToFloat":
+                # floats are modelled as reals whose operations are uninterpreted functions: sound
+                # for properties that compare results of the *same* float expression
+                return z3.ToReal(v)
             raise Unsupported("cast " + s)
         if s.startswith("&raw "):
             raise Unsupported("raw pointer")
@@ -514,16 +523,38 @@ class Engine:
             return [self.operand(env, x) for x in split_top(inner)]
         if s.startswith("(") and s.endswith(")") and match_close(s, 0) == len(s) - 1:
             return Struct([self.operand(env, x) for x in split_top(s[1:-1])])
-        # ADT aggregate
-        m = re.match(r"^([\w:<>,' &\[\];()+-]+?)(?:\((.*)\)| \{(.*)\})?$", s)
-        if m:
-            path = re.sub(r"::<.*?>(?=::|$)", "", m.group(1).strip())
-            args = []
-            if m.group(2) is not None:
-                args = [self.operand(env, x) for x in split_top(m.group(2))]
-            elif m.group(3) is not None:
-                for fld in split_top(m.group(3)):
-                    args.append(self.operand(env, fld.split(":", 1)[1]))
+        # ADT aggregate:  Path::<..>::Variant(args) | Path(args) | Path { f: a, .. } | Path::UnitVariant
+        path, args = s, []
+        if s.endswith(")"):
+            depth_, j = 0, len(s) - 1
+            while j >= 0:
+                if s[j] == ")":
+                    depth_ += 1
+                elif s[j] == "(":
+                    depth_ -= 1
+                    if depth_ == 0:
+                        break
+                j -= 1
+            if j > 0 and re.match(r"[\w>]", s[j - 1]):
+                path = s[:j]
+                args = [self.operand(env, x) for x in split_top(s[j + 1:-1])]
+        elif s.endswith("}") and " { " in s:
+            j = s.index(" { ")
+            path = s[:j]
+            for fld in split_top(s[j + 3:-1].strip()):
+                args.append(self.operand(env, fld.split(":", 1)[1]))
+        # drop generic arguments
+        pth, depth_ = "", 0
+        for ch in path:
+            if ch == "<":
+                depth_ += 1
+            elif ch == ">":
+                depth_ -= 1
+            elif depth_ == 0:
+                pth += ch
+        path = re.sub(r"::::", "::", pth).strip()
+        path = re.sub(r"::$", "", path)
+        if re.match(r"^[\w:]+$", path):
             last = path.split("::")[-1]
             if path in self.variant_of:
                 return Enum(self.variant_of[path], {last: args}, path.rsplit("::", 1)[0])
@@ -545,6 +576,11 @@ class Engine:
         if op in ("Add", "Sub", "Mul", "AddUnchecked", "SubUnchecked", "MulUnchecked"):
             e = {"A": a + b, "S": a - b, "M": a * b}[op[0]]
             return wrap(e, ty) if ty in INT else simp(e)
+        if (z3.is_expr(a) and a.sort() == z3.RealSort()) or (z3.is_expr(b) and b.sort() == z3.RealSort()):
+            f = z3.Function("f64_" + op.lower(), z3.RealSort(), z3.RealSort(), z3.RealSort() if op in ("Add", "Sub", "Mul", "Div") else z3.BoolSort())
+            if op not in ("Add", "Sub", "Mul", "Div"):
+                raise Unsupported("float comparison")
+            return f(a, b)
         if op == "Div":
             return tdiv(a, b)
         if op == "Rem":
@@ -675,7 +711,12 @@ class Engine:
                 j -= 1
             callee = callexpr[:j].strip()
             argtxt = split_top(callexpr[j + 1:close])
-            args = [self.operand(env, a) for a in argtxt]
+            args = []
+            for a in argtxt:
+                if a.startswith(("copy ", "move ", "const ")):
+                    args.append(self.operand(env, a))
+                else:
+                    args.append(("fnitem", a))  # a function item / closure passed by value
             base, _ = self.parse_place(dest)
             for outpc, out in self.call(callee, args, argtxt, env, fn, pcs, depth, fn.locals.get(base, "")):
                 if out[0] == "panic":
@@ -757,14 +798,20 @@ class Engine:
             yield pcs, ("ret", simp(args[0].d == (1 if c.endswith("is_some") else 0))); return
         if re.search(r"::(is_none|is_err)$", c) and isinstance(args[0], Enum):
             yield pcs, ("ret", simp(args[0].d == (0 if c.endswith("is_none") else 1))); return
+        if re.search(r"Result::<.*>::map_err::<", c) or re.search(r"Result<.*>::map_err$", c):
+            v = args[0]
+            pay = {"Err": [("opaque-error",)]}
+            if "Ok" in v.p:
+                pay["Ok"] = v.p["Ok"]
+            yield pcs, ("ret", Enum(v.d, pay, "Result")); return
         if re.search(r"as (std|core)::clone::Clone>::clone$", c):
             yield pcs, ("ret", args[0]); return
         # crate function: resolve by last segment + argument types
         last = re.sub(r"::<.*>$", "", c).split("::")[-1]
         if last == "into" and " as " in c:
             last = "from"
-        if last in self.stubs:
-            for r in self.stubs[last](self, args, pcs, c):
+        if last in self.stubs and self.stubs[last][0](c):
+            for r in self.stubs[last][1](self, args, pcs, c):
                 yield r
             return
         ptypes = []
